@@ -35,6 +35,10 @@ CHECKS = {
             "bounded exhaustive operation sequences + Hypothesis long histories against a reference scheduler model, on the real TaskManager under a virtual clock, through both core.run_once() and core.run()",
             "All install/suspend/resume/re-install/advance sequences up to a length bound over up to 4 one-shot tasks with colliding times, plus Hypothesis sequences of up to 200 operations, are applied to the real TaskManager (virtual clock) and to a reference scheduler; the firing logs (task, time) must be identical. Recurring tasks are checked slot by slot against exact rational slots on an interval x offset x install-instant grid; every raising subset x every deferring subset of deferred batches (4096 shapes) and raising tasks among due tasks are enumerated under both event loops.",
             "Only bacpypes.task._time is rebound (harness monkeypatch); the real heap, run_once and run loops execute. Sequence length bounds are below the statement's 7 for 4 tasks (full alphabet <=3 quick / <=4 thorough; length 7 only on a 2-task reduced alphabet in thorough). Per-case 5 s real-time watchdog reports a loop that never returns."),
+    "C19": ("exploration",
+            "bounded exhaustive + Hypothesis operation histories against a dict reference model, on the real RouterInfoCache and through real network-layer messages into an NSAP/NSE node",
+            "All learn/forget/renumber histories up to length 3 (92-symbol alphabet) and 4-6 (15-symbol alphabet) plus Hypothesis histories of up to 300 operations are applied to a real RouterInfoCache and to a one-dict model; after every step every lookup must equal the model and the two indexes must agree, and nothing may raise. The same kinds of histories are driven through encoded I-Am-Router-To-Network / routed / Network-Number-Is frames and the public delete API into a real NSAP+NSE on a recording wire; the next-hop MAC of traffic sent afterwards must be the model's router, unknown destinations must trigger discovery.",
+            "Index agreement reads the cache's routers/path_info attributes; renumbering onto a number in use is excluded; the node has a single port (multi-port behaviour is C06)."),
 }
 
 NOT_YET = {}
